@@ -395,7 +395,7 @@ EXTRA2 = {
     "C12": " A data-only object module that carries a module name of its own (application-defined Importable) among the modules.",
     "C14": " C14_Marked also with a twin function literal of the same text (same instructions where the body mentions no literal) defined earlier and never called.",
     "C15": " C15_CancelledRun: Set, RunContext cancelled by the script's last statement, Set, Run, Get on the object or a clone (natively 60 rounds). C15_AccessorStrings: 27 numeric-looking strings at and beyond the int64/float64 range and in other bases, through Variable accessors, a script variable and a clone (concrete boundary set).",
-    "C17": " Flag pairs (C17_FlagPairs): '%' + two symbolic flag bytes + ('*' with operand 12 / -12 | literal 12.2) + a symbolic verb byte x 8 argument values of every kind (signed and unsigned). '*' operands that are rejected or not ints (C17_StarOperand): 5 formats with a following directive x 9 operands (above 10^6 in magnitude, MinInt64, strings, bytes, float, bool), following int symbolic in -9..9.",
+    "C17": " Flag pairs (C17_FlagPairs): '%' + two symbolic flag bytes + ('*' with operand 12 / -12 | literal 12.2) + a symbolic verb byte (restricted to the verbs that apply to the argument's kind) x 8 argument values of every kind (signed and unsigned). '*' operands that are rejected or not ints (C17_StarOperand): 5 formats with a following directive x 9 operands (above 10^6 in magnitude, MinInt64, strings, bytes, float, bool), following int symbolic in -9..9.",
     "C18": " Escape contexts: arbitrary bytes after a partial \\u escape (BMP, surrogate pair, in a key) and after a backslash; decoded strings with escapes are compared with the same Go string literal (strconv.Unquote) where the text is also a Go literal.",
     "C19": " (the engine now implements the Go builtin clear: 200 regexp paths that ended as engine failures are explored)",
     "C20": " Literal frames (C20_LiteralFrames): 1..2 (thorough 3) arbitrary bytes inside 8 char/string literal frames (hex, octal, unicode and single-character escapes, multi-byte runes).",
